@@ -157,7 +157,7 @@ def make_driver(plan: Plan):
 def make_program(rng, ids: gen.Ids, is_async: bool) -> Tuple[Dict[str, Any], List[Dict[str, Any]]]:
     """A small program and the list of base calls to fault."""
     forms = ["def", "lambda"] + (["adef", "aw"] if is_async else [])
-    errs = ["default", "class", "instance", "factory"]
+    errs = ["default", "class", "instance", "factory", "method"]
     f = gen.make_member(ids, rng, "function", "f", is_async, 2, 2, 1, forms=forms, errs=errs, params=[P("x"), P("y", default=True)])
     g = gen.make_member(ids, rng, "function", "g", False, 1, 1, 0, forms=["def"], errs=["instance"], params=[P("x")])
     members = [
